@@ -141,8 +141,11 @@ class Blocking:
             out = s.cmd("EXTEND %s head" % self.src.tlv().hex()); self.res = "R extend"; self.ep = 1
         else:
             out = s.cmd("CONF %s" % ("aggr" if kind == "aggrconf" else "ext")); self.res = "R conf"; self.ep = 0 if kind == "aggrconf" else 1
-        if not out or not out[-1].startswith("Q recv"):
+        if not out or not out[-1].startswith(("Q recv", "Q http")):
             return None, d, out
+        if out[-1].startswith("Q http"):
+            f0 = dict(x.split("=", 1) for x in [l for l in out if l.startswith("E http")][-1].split()[2:])
+            return (bytes.fromhex(f0["post"]) if f0["post"] != "-" else b""), d, out
         raw = b"".join(bytes.fromhex(l.split("data=")[1]) for l in out if l.startswith("E send"))
         return raw, d, out
 
@@ -155,6 +158,29 @@ class Blocking:
             if self.ep: s.cmd("EP %d" % self.ep)
             s.cmd("PEERCLOSE"); out = s.cmd("GO")
         if self.ep: s.cmd("EP 0")
+        r = [l for l in out if l.startswith(self.res)][0]
+        return (" rc=0x0 " in r + " "), r
+
+
+class Http(Blocking):
+    """the same operations over the HTTP client: the request is the POST body handed to curl_easy_perform, the reply the scripted HTTP body"""
+    def __init__(self, s, rng, alg, login=wire.LOGIN, key=wire.KEY):
+        self.s, self.rng = s, rng
+        self.args = (s, rng, alg, login, key); self.used = 0
+        s.cmd("CRED %s %s" % (login.hex(), key.hex()))
+        out = s.cmd("HNEW")
+        if "rc=0" not in out[-1] or "rc=0" not in s.cmd("HMACALG %d %d" % (alg, alg))[-1]:
+            raise vlib.CheckError("HNEW failed: %s" % out)
+        self.src = None
+
+    def start(self, kind):
+        raw, d, out = Blocking.start(self, kind)          # Blocking.start stops at the first prompt, which here is "Q http"
+        return raw, d, out
+
+    def finish(self, reply):
+        s = self.s
+        s.cmd("HTTP 200 %s %d" % (reply.hex(), self.rng.choice([0, 0, 1, 13])))
+        out = s.cmd("GO")
         r = [l for l in out if l.startswith(self.res)][0]
         return (" rc=0x0 " in r + " "), r
 
@@ -253,6 +279,13 @@ def run(chk, tier, seed):
                     ok, line = b.finish(reply)
                     if not ok:
                         chk.violation("authentic-rejected:%s:blocking:key%d" % (kind, len(key)), "authentic %s response under a %d-octet key / %s rejected: %s" % (kind, len(key), PYH[alg], line[:160]), dict(log=s.log[-12:]))
+            hb = Http(s, rng, 1, login, key)
+            for kind in ("aggr", "ext"):
+                raw, d, out = hb.start(kind)
+                if raw is None:
+                    chk.violation("no-request:%s:http" % kind, "HTTP %s did not perform a request: %s" % (kind, [x[:100] for x in out]), dict(log=s.log[-10:])); continue
+                check_request(chk, raw, kind, "http", login, key, 1, d); nreq += 1
+                s.cmd("HTTPERR 7"); s.cmd("GO")
             for ha in (False, True):            # async services use the default algorithm
                 doc, reqs = async_start(s, rng, ha, login, key)
                 if len(reqs) != (2 if ha else 1):
@@ -265,7 +298,7 @@ def run(chk, tier, seed):
         blk = {}
         for c in order:
             kind, tr, alg, dev = c["kind"], c["transport"], c["alg"], c["dev"]
-            if tr != "blocking" and alg != 1:
+            if tr in ("async", "ha") and alg != 1:
                 continue                                    # the async services have no algorithm option: default algorithm only
             def one(mutate):
                 """run one exchange; mutate(raw, regions) -> iterator of (label, bytes) is consumed one exchange per item"""
@@ -274,13 +307,13 @@ def run(chk, tier, seed):
                 it = None; first = None
                 cseed = "%s/%s/%d/%s/%s" % (kind, tr, alg, dev["d"], dev["r"])
                 while True:
-                    if tr == "blocking":
-                        if alg not in blk:
-                            blk.clear(); blk[alg] = Blocking(s, rng, alg)
-                        b = blk[alg]
+                    if tr in ("blocking", "http"):
+                        if (tr, alg) not in blk:
+                            blk.clear(); blk[(tr, alg)] = (Blocking if tr == "blocking" else Http)(s, rng, alg)
+                        b = blk[(tr, alg)]
                         raw, d, out = b.start(kind)
                         if raw is None:
-                            chk.violation("no-request:%s" % kind, "blocking %s sent nothing" % kind, dict(log=s.log[-10:])); return
+                            chk.violation("no-request:%s:%s" % (kind, tr), "%s %s sent nothing" % (tr, kind), dict(log=s.log[-10:])); return
                         rid = int.from_bytes(wire.request_fields(raw)["payload"].get(1, b""), "big")
                         reply, regions = authentic(kind, random.Random(cseed), rid, d, alg, dev)
                         if it is None:
@@ -318,6 +351,8 @@ def run(chk, tier, seed):
                     judge(chk, c, delivered, line, label, dict(case=c, variant=label, log=s.log[-14:]))
             if dev["d"] == "flip":
                 step = 1 if (tier == "thorough" or tr == "blocking" or dev["r"] != "payload") else 5
+                if tier == "quick" and tr == "http" and dev["r"] in ("payload", "header"):
+                    step = 7
                 if tier == "quick" and tr == "blocking" and dev["r"] == "payload" and (alg != 1 or kind != "aggr"):
                     step = 3
                 def mut(reply, regions, r=dev["r"], step=step):
@@ -341,12 +376,12 @@ def run(chk, tier, seed):
             chk.violation("crash:pdu:exit", "driver exited rc=%s (leak or sanitizer report)\n%s" % (rc, err[-2500:]), {})
     chk.sample(dict(kind="flips per region", per_region=per_region)); chk.sample(dict(kind="hmac algorithms compared with RFC 2104", algorithms=supported))
     chk.add(evaluations=n + nreq + nh, distinct_nontrivial=n, model_cases=len(cases), requests_verified=nreq, hmac_function_points=nh, exhaustive=(tier == "thorough"),
-            rule="every case of MC_Pdu (4 response kinds x blocking/async/HA x configured SHA-256/SHA-512 x 12 deviations); a flip deviation = every single-bit flip in that region "
+            rule="every case of MC_Pdu (4 response kinds x blocking TCP / blocking HTTP / async / HA x configured SHA-256/SHA-512 x 12 deviations); a flip deviation = every single-bit flip in that region "
                  "(quick: every bit of all regions on the blocking client for signing responses, every 3rd payload bit for other kinds, every 5th payload bit on async/HA); "
                  "requests of 6 credential pairs x algorithms on every transport")
     chk.assumptions += ["the HMAC is modelled as an injective function of (key, algorithm, covered bytes); collisions are outside the model",
                         "PDU v1 is only checked as `the other version is rejected`; Pdu.tla OutsideMac(1) lists the v1 regions not covered by the MAC (format property, not an SDK property)",
-                        "HTTP transport (libcurl) is not bound; the async/HA services use the default HMAC algorithm (no per-service option exists)"]
+                        "the HTTP client is bound through a scripted libcurl (the easy interface defined by the driver), libcurl itself is not run; the async/HA services use the default HMAC algorithm (no per-service option exists)"]
 
 
 def replay(chk, path):
